@@ -157,6 +157,7 @@ pub fn fault_name(k: &FaultKind) -> &'static str {
         FaultKind::Relabel { .. } => "Relabel",
         FaultKind::SigNegateS => "SigNegateS",
         FaultKind::RandomEdit { .. } => "RandomEdit",
+        FaultKind::AlphabetSwap { .. } => "AlphabetSwap",
         FaultKind::Duplicate => "Duplicate",
     }
 }
@@ -1063,6 +1064,22 @@ fn judge_deliver(
         }
     }
 
+    // -------- C07: whatever the body is, a header that names another protocol is refused
+    if let Some(tp) = Proto::from_header_prefix(&m.text) {
+        if tp != v.proto {
+            cx.clause(
+                "C07",
+                "header_naming_other_protocol_rejected",
+                idx,
+                out.is_err(),
+                "Err",
+                out.short(),
+                &[("header", tp.name().to_string()), ("to", vname.clone()), ("site", panic_site.clone())],
+            );
+            cx.j.nontrivial |= cx.is("C07");
+        }
+    }
+
     let root = match m.root.and_then(|r| cx.tokens.get(&r)).cloned() {
         Some(r) => r,
         None => {
@@ -1366,13 +1383,17 @@ fn judge_deliver(
     }
 
     // ---------------- read-back of builder tokens: C13 / C14 / C17
-    if plain && !v.default_validators && is_parser_layer && root.snapshot.is_some() {
+    if is_parser_layer && root.snapshot.is_some() && v.expect.is_empty() && rejecting.is_empty() && time_tri == Tri::MustAccept && !footer_other_form && !assert_other_form {
+        // any parser that must accept the token (no expectations, only accepting validators, inside the
+        // validity window) serves as read-back
         judge_readback(cx, idx, &root, out);
     }
 
     // ---------------- C11 / C12
-    if v.default_validators && v.layer == Layer::Batteries && v.expect.is_empty() && v.validators.is_empty() && json_obj {
-        judge_time(cx, idx, &root, &v, out, main, &exp_m, &nbf_m, rmin, rmax, control_ok, ticks);
+    if v.default_validators && v.layer == Layer::Batteries && v.validators.is_empty() && json_obj {
+        // with expectations registered only the reject direction is judged (whether an unexpired token is
+        // accepted then also depends on the expectations, which is C15's business)
+        judge_time(cx, idx, &root, &v, out, main, &exp_m, &nbf_m, rmin, rmax, control_ok, ticks, v.expect.is_empty());
     }
 
     // ---------------- C15
@@ -1487,8 +1508,21 @@ fn judge_readback(cx: &mut Ctx, idx: usize, root: &TokenInfo, out: &Outcome) {
     let o = match out {
         Outcome::OkJson(Value::Object(o)) => o.clone(),
         _ => {
-            for pp in ["C13", "C14", "C17"] {
+            for pp in ["C13", "C17"] {
                 cx.unjudged(pp, "readback_failed");
+            }
+            if snap.layer == Layer::Generic {
+                // C14: the matching parser must return the object that equals the claims that were set; an
+                // authentic token of the generic builder that cannot be read back at all does not
+                cx.clause(
+                    "C14",
+                    "parsed_claims_equal_set_claims",
+                    root.event,
+                    false,
+                    &format!("exactly {}", root.json().map(|j| j.to_string()).unwrap_or_default()),
+                    out.short(),
+                    &[("proto", root.proto.name().to_string()), ("build_event", root.event.to_string())],
+                );
             }
             return;
         }
@@ -1564,6 +1598,7 @@ fn judge_time(
     rmax: i128,
     control_ok: Option<bool>,
     ticks: &[Ns],
+    accept_direction: bool,
 ) {
     let e = time_tri_exp(exp_m, rmin, rmax);
     let n = time_tri_nbf(nbf_m, rmin, rmax);
@@ -1621,6 +1656,7 @@ fn judge_time(
             cx.clause("C11", name, idx, out.is_err(), "Err", out.short(), &f_e);
             cx.j.nontrivial |= cx.is("C11");
         }
+        Tri::MustAccept if !accept_direction => cx.unjudged("C11", "expectations_registered"),
         Tri::MustAccept => {
             if n == Tri::MustAccept {
                 match control_ok {
@@ -1644,6 +1680,7 @@ fn judge_time(
             cx.clause("C12", name, idx, out.is_err(), "Err", out.short(), &f_n);
             cx.j.nontrivial |= cx.is("C12");
         }
+        Tri::MustAccept if !accept_direction => cx.unjudged("C12", "expectations_registered"),
         Tri::MustAccept => {
             if e == Tri::MustAccept {
                 match control_ok {
